@@ -54,7 +54,7 @@ class Check(DiffCheck):
     extract_v = 'C11/C11_Extract.v'
     runner_ml = 'ocaml/C11_run.ml'
     model_module = 'C11_model'
-    case_timeout = 900
+    case_timeout = 3000
     rule = ('cases: corpus (F12 witness first); every permutation of the responses for k<=4 callers x a delay placed '
             'before the header / between header and body / after the body of every response x caller deadlines '
             'before/at/after that delay; PRNG scripts: fragmentation at arbitrary bytes (inside headers), staggered starts, '
